@@ -53,6 +53,8 @@ type c05ACS struct {
 	Loc string `json:"loc"`
 	Idx int    `json:"idx"`
 	Def *bool  `json:"def,omitempty"`
+	// ResponseLocation attribute of the element (legal on any endpoint type, meaningless for an ACS): never a place to send an assertion to
+	RLoc string `json:"response_location,omitempty"`
 }
 
 type c05Meta struct {
@@ -99,6 +101,10 @@ type c05Step struct {
 	// Interleave (via=validate): between decoding this request and validating it the IdP decodes another,
 	// valid request of another login (two requests in flight at API granularity)
 	Interleave bool `json:"interleave_other_request,omitempty"`
+	// HostHeader: the Host the client puts on the HTTP request. "" = the SSO URL's own; "@destination" = the
+	// host named by the delivered document's Destination attribute; anything else verbatim (a proxy's internal name).
+	// The configured SSO URL, not the transport's Host, says where this IdP lives.
+	HostHeader string `json:"host_header,omitempty"`
 }
 
 func c05BindingURI(b string) string {
@@ -133,6 +139,10 @@ func c05Descriptor(m *c05Meta) *saml.EntityDescriptor {
 		sd := saml.SPSSODescriptor{SSODescriptor: saml.SSODescriptor{RoleDescriptor: saml.RoleDescriptor{ProtocolSupportEnumeration: "urn:oasis:names:tc:SAML:2.0:protocol"}}}
 		for _, a := range d {
 			ep := saml.IndexedEndpoint{Binding: c05BindingURI(a.B), Location: a.Loc, Index: a.Idx}
+			if a.RLoc != "" {
+				rl := a.RLoc
+				ep.ResponseLocation = &rl
+			}
 			if a.Def != nil {
 				v := *a.Def
 				ep.IsDefault = &v
@@ -186,6 +196,9 @@ func c05GenMeta(g *Rng, sp int) c05Meta {
 			case 2:
 				f := false
 				e.Def = &f
+			}
+			if g.Bool(0.12) {
+				e.RLoc = Pick(g, "https://collector.example.net/slo-return", locs[len(locs)-1]+"/return")
 			}
 			desc = append(desc, e)
 		}
@@ -274,6 +287,7 @@ func genIngress(g *Rng, tier string) *Plan {
 	for i := 0; i < n; i++ {
 		st := c05Step{Kind: "request", SP: g.PickW(3, 1), Binding: Pick(g, "redirect", "post"), Via: Pick(g, "validate", "validate", "validate", "sso", "sso")}
 		st.Interleave = g.Bool(0.2)
+		st.HostHeader = []string{"", "@destination", "internal-lb:8080"}[g.PickW(6, 3, 1)]
 		if g.Bool(0.2) {
 			st.IssuedFor = 1
 		}
@@ -839,6 +853,16 @@ func execIngress(t *testing.T, p *Plan) *Result {
 		}
 		// ---- the real IdP
 		hr := wire.httpRequest(sso)
+		switch {
+		case st.HostHeader == "@destination":
+			if du, e := url.Parse(view.dest); e == nil && view.hasDest && du.Host != "" && du.Host != hr.Host {
+				hr.Host = du.Host
+				res.fire("transport:host-header-follows-destination")
+			}
+		case st.HostHeader != "":
+			hr.Host = st.HostHeader
+			res.fire("transport:foreign-host-header")
+		}
 		var sel *c05ACS
 		var observed string
 		var action string
